@@ -22,20 +22,35 @@
 (***************************************************************************)
 EXTENDS Naturals, TLC
 
-CONSTANTS Retries,        \* cfg.RpcRetries (>= 1)
-          MaxCrashes,     \* crash / restart budget of the destination
-          CountShutdown   \* FALSE = the code as pinned
+CONSTANTS
+  \* @type: Int;
+  Retries,        \* cfg.RpcRetries (>= 1)
+  \* @type: Int;
+  MaxCrashes,     \* crash / restart budget of the destination
+  \* @type: Bool;
+  CountShutdown   \* FALSE = the code as pinned
 
-VARIABLES pc,        \* "top" | "call" | "wait" | "done"
-          i,         \* loop counter
-          retryErr,  \* "nil" | "dial" | "timeout"
-          cache,     \* "none" | "live" | "dead": the cached client of the destination
-          server,    \* "up" | "down"
-          inflight,  \* a request is on the wire / being executed
-          executed,  \* how often the destination executed the request
-          replied,   \* a reply to an execution is on its way back
-          result,    \* "none" | "nil" | "err"
-          crashes
+VARIABLES
+  \* @type: Str;
+  pc,        \* "top" | "call" | "wait" | "done"
+  \* @type: Int;
+  i,         \* loop counter
+  \* @type: Str;
+  retryErr,  \* "nil" | "dial" | "timeout"
+  \* @type: Str;
+  cache,     \* "none" | "live" | "dead": the cached client of the destination
+  \* @type: Str;
+  server,    \* "up" | "down"
+  \* @type: Bool;
+  inflight,  \* a request is on the wire / being executed
+  \* @type: Int;
+  executed,  \* how often the destination executed the request
+  \* @type: Bool;
+  replied,   \* a reply to an execution is on its way back
+  \* @type: Str;
+  result,    \* "none" | "nil" | "err"
+  \* @type: Int;
+  crashes
 vars == <<pc, i, retryErr, cache, server, inflight, executed, replied, result, crashes>>
 
 Init ==
@@ -120,6 +135,27 @@ NilMeansExecuted == result = "nil" => executed >= 1
 ResultOnlyAtEnd == (result # "none") <=> (pc = "done")
 \* every call returns (the destination crashes finitely often)
 Terminates == <>(pc = "done")
+\* ---- unbounded argument (Apalache): NilMeansExecuted for EVERY number of retries and every crash budget.
+\* IndInv holds initially and is preserved by every step (checked symbolically with the constants left open:
+\*   apalache-mc check --cinit=ConstInit --init=IndInit --inv=IndInv --length=1 Rpc.tla, and --init=Init --length=0)
+ConstInit == Retries \in 1..1000 /\ MaxCrashes \in 0..1000 /\ CountShutdown = FALSE
+ConstInitNeg == Retries \in 1..1000 /\ MaxCrashes \in 0..1000 /\ CountShutdown = TRUE   \* (self-test: must be refuted)
+IndInv ==
+  /\ TypeOK
+  /\ executed >= 0 /\ crashes >= 0 /\ i >= 0
+  /\ NilMeansExecuted
+  /\ ResultOnlyAtEnd
+  /\ (replied => executed >= 1)
+  \* the loop is left through the counter only with an error recorded
+  /\ (pc \in {"call", "wait"} => i < Retries)
+  /\ ((pc = "top" /\ retryErr = "nil") => i < Retries)
+IndInit ==
+  /\ pc \in {"top", "call", "wait", "done"} /\ i \in Nat
+  /\ retryErr \in {"nil", "dial", "timeout"} /\ cache \in {"none", "live", "dead"}
+  /\ server \in {"up", "down"} /\ inflight \in BOOLEAN /\ executed \in Nat /\ replied \in BOOLEAN
+  /\ result \in {"none", "nil", "err"} /\ crashes \in Nat
+  /\ IndInv
+
 \* NOT an invariant of the design (see Rpc.dup.cfg): a retry after a timeout can run the request twice
 AtMostOnce == executed <= 1
 =============================================================================
